@@ -478,7 +478,7 @@ def check_h1(case):
     Q = {k: (scaled(v, pd[k], S) if k in pd else v) for k, v in P.items()}
     al = P['k'] / (P['rho'] * P['cp'])
     t = case['ft'] * 1e-3 * P['b'] ** 2 / al
-    r = np.asarray(case['fx']) * P['b']
+    r = np.concatenate([[0.0], np.asarray(case['fx']) * P['b']])       # (with the centre, where the series has its own limit form)
     A = cat.run(dict(case, t=t), x=r)
     B = cat.run(dict(case, params=Q, t=t * S[2]), x=r * S[1])
     compare(o, A, B, dict(radius=D_X, temperature=D_TH), S, 1e-8, scale_of=dict(radius=P['b'] * S[1], temperature=(abs(P['Tb']) + abs(P['T0']) + 1e-6) * S[3]))
